@@ -239,20 +239,21 @@ theorem dv_string_literal_regression :
 
 /-! ## legacy XOR password hash -/
 
-/-- `xor_hash_range`, partial: for ASCII passwords of at most 23 characters the
-hash is a 16-bit value (at most 4 hex digits) -/
-theorem xor_hash_range_partial (runes : List Nat) (hr : ∀ v ∈ runes, v < 128) (hl : runes.length ≤ 23) :
+/-- `xor_hash_range`, FULL for ASCII passwords after the second fix window: whatever the
+length (below 65536 characters), the legacy hash is a 16-bit value (at most 4 hex digits) -/
+theorem xor_hash_range (runes : List Nat) (hr : ∀ v ∈ runes, v < 128) (hl : runes.length < 65536) :
     xorHash runes.length runes < 65536 := by
   unfold xorHash
-  have h1 : xorFold 0 1 runes < 32768 := xorFold_lt runes 0 1 (by omega) hr (by omega)
+  have h1 : xorFold 0 1 runes < 32768 := xorFold_lt runes 0 1 (by omega) hr
   have h2 : xorFold 0 1 runes ^^^ runes.length < 2 ^ 16 := Nat.xor_lt_two_pow (by omega) (by omega)
   have h3 : Facts.C18.xorConst < 2 ^ 16 := by decide
   exact Nat.xor_lt_two_pow h2 h3
 
-/-- finding: from 25 ASCII characters on the value can leave the 16-bit range
-(25 × 'A' hashes to a 17-bit value): the loop shifts by the unreduced position -/
-theorem finding_xor_hash_overflow :
-    xorHash 25 (List.replicate 25 65) ≥ 65536 := by decide +kernel
+/-- regression of the fixed finding xorpw:range: 25 × 'A' (formerly a 17-bit value) and a
+255-character password hash into 16 bits; the rotation has period 15 -/
+theorem xor_hash_regression :
+    xorHash 25 (List.replicate 25 65) < 65536 ∧ xorHash 255 (List.replicate 255 121) < 65536 ∧
+    xorTerm 65 16 = xorTerm 65 1 := by decide +kernel
 
 /-- the known Excel value: "password" hashes to 83AF -/
 theorem xor_hash_example : passwdOf "password".toList = "83AF".toList := by decide +kernel
@@ -598,20 +599,19 @@ end ProtectionThms
 section DvDeleteThms
 open XlModel.DvDelete
 
-/-- `dv_delete_exactly`, clause "deleting … removes exactly that item" for data validations:
-for stored rules whose sqref lists every cell once and top-to-bottom inside each column
-(`Clean`: what a single range, disjoint ascending areas, or an earlier delete produce), after
-`DeleteDataValidation(range)`
+/-- `dv_delete_exactly`, clause "deleting … removes exactly that item" for data validations —
+FULL after the second fix window, for EVERY list of stored rules (areas overlapping or written
+in any order) and every delete range: after `DeleteDataValidation(range)`
 * every rule denotes exactly its former cells outside the range,
 * a rule survives iff it has a cell outside the range — in particular a rule wholly inside the
   range never survives, wherever it stands in the list (the class of seeded change C18d/2),
 * a cell is covered afterwards iff it was covered before and is not in the range. -/
-theorem dv_delete_exactly (rules : List (List Cell)) (del : List Cell) (hc : ∀ r ∈ rules, Clean r) :
+theorem dv_delete_exactly (rules : List (List Cell)) (del : List Cell) :
     (∀ r ∈ rules, ∀ a, a ∈ rewriteRule r del ↔ a ∈ r ∧ a ∉ del) ∧
     (∀ r ∈ rules, (rewriteRule r del ∈ deleteRules rules del ↔ ∃ a ∈ r, a ∉ del)) ∧
     (∀ a, (∃ r' ∈ deleteRules rules del, a ∈ r') ↔ (∃ r ∈ rules, a ∈ r) ∧ a ∉ del) := by
   have h1 : ∀ r ∈ rules, ∀ a, a ∈ rewriteRule r del ↔ a ∈ r ∧ a ∉ del :=
-    fun r hr a => mem_rewriteRule r del (hc r hr) a
+    fun r _ a => mem_rewriteRule r del a
   refine ⟨h1, ?_, ?_⟩
   · intro r hr
     unfold deleteRules
@@ -658,17 +658,18 @@ theorem dv_delete_adjacent_example :
      | .ok a, .ok b, .ok c, .ok e, .ok d => deleteRules [a, b, c, e] d == [e]
      | _, _, _, _, _ => false) = true := by decide +kernel
 
-/-- finding dvdel:areas-not-ascending: the full statement fails without `Clean`: a rule whose
-areas are written bottom-up ("A5:A6 A1:A2") is rewritten by ANY delete call — even one that
-touches none of its cells — to the span A2:A5: it gains A3, A4 and loses A1, A6
-(`squashSqref` assumes increasing rows) -/
-theorem finding_dv_delete_descending_areas :
-    rewriteRule [(1, 5), (1, 6), (1, 1), (1, 2)] [(3, 9)] = [(1, 2), (1, 3), (1, 4), (1, 5)] := by decide +kernel
+/-- a rule without a cell in the range keeps its sqref as it is (no rewrite at all) -/
+theorem dv_delete_untouched (cells del : List Cell) (h : hits cells del = false) :
+    rewriteRule cells del = cells := by
+  simp [rewriteRule, h]
 
-/-- finding dvdel:overlapping-areas: a cell listed twice by a rule ("A1:A2 A2" lists A2 twice)
-is removed only once: after deleting A2 the rule still covers A2 -/
-theorem finding_dv_delete_overlapping_areas :
-    (1, 2) ∈ rewriteRule [(1, 1), (1, 2), (1, 2)] [(1, 2)] := by decide +kernel
+/-- regressions of the fixed findings dvdel:areas-not-ascending and dvdel:overlapping-areas:
+the bottom-up rule "A5:A6 A1:A2" survives an unrelated delete unchanged and loses exactly A5
+when A5 is deleted; the cell listed twice by "A1:A2 A2" is gone after deleting A2 -/
+theorem dv_delete_regressions :
+    rewriteRule [(1, 5), (1, 6), (1, 1), (1, 2)] [(3, 9)] = [(1, 5), (1, 6), (1, 1), (1, 2)] ∧
+    rewriteRule [(1, 5), (1, 6), (1, 1), (1, 2)] [(1, 5)] = [(1, 1), (1, 2), (1, 6)] ∧
+    rewriteRule [(1, 1), (1, 2), (1, 2)] [(1, 2)] = [(1, 1)] := by decide +kernel
 
 end DvDeleteThms
 
@@ -818,16 +819,20 @@ theorem cf_numbering_example :
 
 end CondFmtThms
 
-/-! ## open findings about accepted-and-ignored values: what IS true of the setters -/
+/-! ## sheet view validation, first page number -/
 
 theorem ignore_guards_pinned :
     Facts.C18.sheetViewNames = ["normal", "pageLayout", "pageBreakPreview"] ∧
-    Facts.C18.zoomMin = 10 ∧ Facts.C18.zoomMax = 400 ∧ Facts.C18.firstPageNumberAbove = 0 := by decide
+    Facts.C18.zoomMin = 10 ∧ Facts.C18.zoomMax = 400 := by decide
 
-/-- a valid View / in-range ZoomScale / positive FirstPageNumber reads back as set -/
+/-- setPageSetUp has no literal guard on the value of FirstPageNumber (it is stored as given) -/
+theorem first_page_number_unguarded : Facts.C18.firstPageNumberGuarded = false := by decide
+
+/-- a valid View / in-range ZoomScale reads back as set, and EVERY FirstPageNumber does
+(0 included, after the second fix window: fixed finding layout:FirstPageNumber:zero) -/
 theorem view_zoom_firstpage_roundtrip (oldV newV : List Char) (oldZ newZ : Int) (oldP : Option Nat) (newP : Nat)
     (hv : Facts.C18.sheetViewNames.any (fun n => n.toList == newV) = true)
-    (hz : 10 ≤ newZ ∧ newZ ≤ 400) (hp : 0 < newP) :
+    (hz : 10 ≤ newZ ∧ newZ ≤ 400) :
     getView (setView oldV newV) = newV ∧ getZoom (setZoom oldZ newZ) = newZ ∧
     getFirstPage (setFirstPage oldP newP) = newP := by
   have hg := ignore_guards_pinned
@@ -838,11 +843,9 @@ theorem view_zoom_firstpage_roundtrip (oldV newV : List Char) (oldZ newZ : Int) 
       | cons _ _ => rfl
     simp [setView, hv, getView, hne]
   · have h1 : newZ ≥ (Facts.C18.zoomMin : Int) ∧ newZ ≤ (Facts.C18.zoomMax : Int) := by
-      rw [hg.2.1, hg.2.2.1]; omega
+      rw [hg.2.1, hg.2.2]; omega
     simp [setZoom, getZoom, h1]
-  · have h1 : newP > Facts.C18.firstPageNumberAbove := by rw [hg.2.2.2]; exact hp
-    have h2 : newP ≠ 0 := by omega
-    simp [setFirstPage, getFirstPage, h1, h2]
+  · simp [setFirstPage, getFirstPage]
 
 /-- fixed findings sheetview:View:invalid-value / sheetview:ZoomScale:out-of-range:
 `SetSheetView` now validates both against the documented ranges: an invalid value is an ERROR
@@ -863,34 +866,30 @@ theorem sheetview_validates (st : List Char × Int) (v : List Char) (z : Int) :
         simp [hv, this]
       · simp [hv]
     · by_cases hv : Facts.C18.sheetViewNames.any (fun n => n.toList == v) = true
-      · have : z < (Facts.C18.zoomMin : Int) ∨ z > (Facts.C18.zoomMax : Int) := by rw [hg.2.2.1]; right; omega
+      · have : z < (Facts.C18.zoomMin : Int) ∨ z > (Facts.C18.zoomMax : Int) := by rw [hg.2.2]; right; omega
         simp [hv, this]
       · simp [hv]
   · intro ⟨hv, h1, h2⟩
     have hz : ¬ (z < (Facts.C18.zoomMin : Int) ∨ z > (Facts.C18.zoomMax : Int)) := by
-      rw [hg.2.1, hg.2.2.1]; omega
+      rw [hg.2.1, hg.2.2]; omega
     refine ⟨(setView st.1 v, setZoom st.2 z), by simp [setSheetViewVZ, hv, hz], ?_, ?_⟩
-    · exact (view_zoom_firstpage_roundtrip st.1 v st.2 z none 1 hv ⟨h1, h2⟩ (by omega)).1
-    · exact (view_zoom_firstpage_roundtrip st.1 v st.2 z none 1 hv ⟨h1, h2⟩ (by omega)).2.1
+    · exact (view_zoom_firstpage_roundtrip st.1 v st.2 z none 1 hv ⟨h1, h2⟩).1
+    · exact (view_zoom_firstpage_roundtrip st.1 v st.2 z none 1 hv ⟨h1, h2⟩).2.1
 
-/-- the inner guards of setSheetView (now unreachable through SetSheetView for invalid values)
-and the still OPEN finding layout:FirstPageNumber:zero: `SetPageLayout` has no error path
-for FirstPageNumber = 0 (the documentation gives no range), the value is dropped and the
-previous one stays -/
-theorem finding_invalid_values_ignored (oldV newV : List Char) (oldZ newZ : Int) (oldP : Option Nat)
+/-- the inner guards of the method setSheetView (unreachable through SetSheetView for invalid
+values since the first fix window): an invalid View / out-of-range ZoomScale leaves the stored one -/
+theorem inner_guards_keep_previous (oldV newV : List Char) (oldZ newZ : Int)
     (hv : Facts.C18.sheetViewNames.any (fun n => n.toList == newV) = false)
     (hz : newZ < 10 ∨ 400 < newZ) :
-    setView oldV newV = oldV ∧ setZoom oldZ newZ = oldZ ∧ setFirstPage oldP 0 = oldP := by
+    setView oldV newV = oldV ∧ setZoom oldZ newZ = oldZ := by
   have hg := ignore_guards_pinned
-  refine ⟨by simp [setView, hv], ?_, ?_⟩
-  · have h1 : ¬ (newZ ≥ (Facts.C18.zoomMin : Int) ∧ newZ ≤ (Facts.C18.zoomMax : Int)) := by
-      rw [hg.2.1, hg.2.2.1]; omega
-    simp [setZoom, h1]
-  · simp [setFirstPage]
+  refine ⟨by simp [setView, hv], ?_⟩
+  have h1 : ¬ (newZ ≥ (Facts.C18.zoomMin : Int) ∧ newZ ≤ (Facts.C18.zoomMax : Int)) := by
+    rw [hg.2.1, hg.2.2]; omega
+  simp [setZoom, h1]
 
-/-- concrete witnesses replayed by the harness: View "bogus", ZoomScale 5, FirstPageNumber 0 -/
-theorem finding_invalid_values_example :
-    getView (setView [] "bogus".toList) = "normal".toList ∧ getZoom (setZoom 0 5) = 100 ∧
-    getFirstPage (setFirstPage (some 5) 0) = 5 := by decide
+/-- regression witnesses replayed by the harness: FirstPageNumber 0 after 5 now reads 0 -/
+theorem first_page_zero_regression :
+    getFirstPage (setFirstPage (some 5) 0) = 0 ∧ getFirstPage none = 1 := by decide
 
 end XlModel.Props.C18
